@@ -1,6 +1,7 @@
 package main
 
 import (
+	"encoding/json"
 	"fmt"
 	"math/rand"
 	"sort"
@@ -14,7 +15,7 @@ import (
 // Domain "loc": histories of Location operations over several locations
 // (indexed and linear state, MemStorage, SimpleLocationProvider).
 
-var locProfiles = []string{"search", "dispatch", "lifecycle", "cascade", "acl", "capacity", "forest", "expiry"}
+var locProfiles = []string{"search", "dispatch", "lifecycle", "cascade", "acl", "capacity", "forest", "expiry", "query"}
 
 func init() {
 	register("loc", &Domain{Gen: genLoc, Exec: execLoc})
@@ -90,14 +91,15 @@ func (lg *locGen) op() map[string]interface{} {
 	}
 	w := map[string][]int{
 		//            addfact addrule remfact remrule get getrule search event enable clear setparents getparents size reload special
-		"search":    {32, 3, 10, 1, 12, 1, 36, 0, 0, 1, 0, 0, 1, 3, 0},
-		"dispatch":  {6, 30, 2, 8, 2, 3, 2, 36, 4, 1, 2, 0, 0, 3, 0},
-		"lifecycle": {6, 22, 2, 10, 2, 2, 2, 30, 16, 1, 0, 0, 0, 6, 3},
-		"cascade":   {30, 8, 15, 6, 6, 0, 12, 6, 6, 1, 0, 0, 4, 4, 0},
-		"acl":       {12, 8, 6, 4, 8, 4, 10, 8, 4, 2, 4, 4, 4, 2, 20},
-		"capacity":  {40, 14, 14, 4, 2, 0, 4, 2, 6, 2, 0, 0, 8, 2, 0},
-		"forest":    {14, 12, 3, 3, 3, 1, 18, 18, 3, 1, 14, 4, 0, 3, 0},
-		"expiry":    {25, 12, 3, 2, 14, 2, 14, 12, 2, 0, 0, 0, 2, 8, 0},
+		"search":    {32, 3, 10, 1, 12, 1, 36, 0, 0, 1, 0, 0, 1, 3, 0, 0},
+		"dispatch":  {6, 30, 2, 8, 2, 3, 2, 36, 4, 1, 2, 0, 0, 3, 0, 0},
+		"lifecycle": {6, 22, 2, 10, 2, 2, 2, 30, 16, 1, 0, 0, 0, 6, 3, 0},
+		"cascade":   {30, 8, 15, 6, 6, 0, 12, 6, 6, 1, 0, 0, 4, 4, 0, 0},
+		"acl":       {12, 8, 6, 4, 8, 4, 10, 8, 4, 2, 4, 4, 4, 2, 20, 0},
+		"capacity":  {40, 14, 14, 4, 2, 0, 4, 2, 6, 2, 0, 0, 8, 2, 0, 0},
+		"forest":    {14, 12, 3, 3, 3, 1, 18, 18, 3, 1, 14, 4, 0, 3, 0, 0},
+		"expiry":    {25, 12, 3, 2, 14, 2, 14, 12, 2, 0, 0, 0, 2, 8, 0, 0},
+		"query":     {34, 2, 6, 0, 2, 0, 6, 0, 0, 1, 0, 0, 0, 3, 1, 40},
 	}[lg.profile]
 	total := 0
 	for _, x := range w {
@@ -226,6 +228,8 @@ func (lg *locGen) op() map[string]interface{} {
 		o["op"] = "size"
 	case 13:
 		o["op"] = "reload"
+	case 15:
+		lg.queryOp(o)
 	default:
 		// property facts that configure the location's gates
 		o["op"] = "addfact"
@@ -602,6 +606,14 @@ func execLocOp(w *locWorld, o map[string]interface{}) {
 				found = append(found, map[string]interface{}{"id": sr.Id, "bss": bssJSON(sr.Bindingss), "loc": ownerOf(w, name, sr.Id, boolean(o["inherited"]))})
 			}
 			res = map[string]interface{}{"ok": true, "found": found}
+		}
+	case "query":
+		js, _ := json.Marshal(plain(o["query"]))
+		qr, err := loc.Query(ctx, string(js))
+		if err != nil {
+			res = errRes(err)
+		} else {
+			res = map[string]interface{}{"ok": true, "bss": bssJSON(qr.Bss)}
 		}
 	case "event":
 		fr := &core.FindRules{Event: plain(o["event"]).(map[string]interface{})}
